@@ -449,3 +449,47 @@ func RowsToStreams(rows []parquet.Row, ncols int) Streams {
 	}
 	return s
 }
+
+// ToValue converts a model leaf entry into a library Value of column col.
+func ToValue(lv LV, col int) parquet.Value {
+	var v parquet.Value
+	if lv.Null {
+		v = parquet.NullValue()
+	} else {
+		switch lv.Kind {
+		case KBool:
+			v = parquet.BooleanValue(lv.I != 0)
+		case KInt32:
+			v = parquet.Int32Value(int32(lv.I))
+		case KInt64:
+			v = parquet.Int64Value(lv.I)
+		case KInt96:
+			var x [3]uint32
+			for i := 0; i < 3; i++ {
+				x[i] = binary.LittleEndian.Uint32(lv.B[4*i:])
+			}
+			v = parquet.Int96Value(x)
+		case KFloat:
+			v = parquet.FloatValue(math.Float32frombits(uint32(lv.I)))
+		case KDouble:
+			v = parquet.DoubleValue(math.Float64frombits(uint64(lv.I)))
+		case KByteArray:
+			v = parquet.ByteArrayValue(lv.B)
+		case KFixed:
+			v = parquet.FixedLenByteArrayValue(lv.B)
+		}
+	}
+	return v.Level(lv.R, lv.D, col)
+}
+
+// SplitRows cuts one column stream into per-row slices (a row starts at r == 0).
+func SplitRows(col []LV) [][]LV {
+	var out [][]LV
+	for i, v := range col {
+		if v.R == 0 || i == 0 {
+			out = append(out, nil)
+		}
+		out[len(out)-1] = append(out[len(out)-1], v)
+	}
+	return out
+}
